@@ -73,41 +73,47 @@ def mps_tables(ctx) -> dict:
         ctx.ob("TABLES-mpo", f"MPO[{basis}]|complete", f.loc(), complete,
                f"all {dim * dim} symbols of the {basis} basis are defined" if complete else
                f"the {basis} table defines {len(t)} of {dim * dim} symbols")
-    # state amplitudes: character -> basis vector index
+    # state amplitudes: character -> basis vector index, read off the paths of the per-character dispatch
     g = prog.func("emu_mps.mps.MPS._from_state_amplitudes")
-    vecs = {}
-    for n in ast.walk(g.node):
-        if isinstance(n, ast.Assign) and isinstance(n.targets[0], ast.Name) and n.targets[0].id.startswith("basis_"):
-            lit = _tensor_literal(n.value)
-            if lit is not None:
-                col = [row[0] for row in lit[0]]
-                vecs.setdefault(n.targets[0].id, []).append((len(col), col.index(1.0) if 1.0 in col else None, n))
-    want = {"basis_0": 0, "basis_1": 1, "basis_x": 2}
-    for name, lst in vecs.items():
-        for dim, pos, node in lst:
-            ok = pos == want.get(name)
-            ctx.ob("TABLES-mps", f"MPS amplitudes|{name}|dim{dim}", g.loc(node), ok,
-                   f"{name} is the unit vector of level {want.get(name)}" if ok else
-                   f"{name} has its 1 at position {pos}, expected {want.get(name)}")
-    ctx.require(len(vecs) == 3, f"TABLES: basis vectors found in MPS._from_state_amplitudes: {sorted(vecs)}")
-    # the character dispatch: one -> basis_1, leak -> basis_x, else basis_0
-    chain = None
-    for n in ast.walk(g.node):
-        if isinstance(n, ast.If) and isinstance(n.test, ast.Compare) and util.text(n.test.left) == "ch":
-            chain = n
-            break
-    okc = False
-    if chain is not None:
-        t1 = util.text(chain.test) == "ch == one" and "basis_1" in util.text(chain.body[0])
-        el = chain.orelse[0] if chain.orelse and isinstance(chain.orelse[0], ast.If) else None
-        t2 = el is not None and util.text(el.test) == "ch == leak" and "basis_x" in util.text(el.body[0])
-        t3 = el is not None and el.orelse and "basis_0" in util.text(el.orelse[0])
-        okc = bool(t1 and t2 and t3)
-    ones = sorted({n.value.value for n in ast.walk(g.node) if isinstance(n, ast.Assign) and isinstance(n.targets[0], ast.Name)
-                   and n.targets[0].id == "one" and isinstance(n.value, ast.Constant)})
-    ctx.ob("TABLES-mps", "MPS amplitudes|character map", g.loc(), okc and ones == ["1", "r"],
-           "amplitude strings: 'r'/'1' → level 1, 'x' → level 2, anything else → level 0" if okc and ones == ["1", "r"] else
-           f"the character dispatch of MPS._from_state_amplitudes changed (one ∈ {ones}, chain ok={okc})")
+    from ..interp import Interp, show, strip_typed, walk
+    it = Interp(prog, g.cls, inline=lambda c, r, d: False, loop_iters=(1,), max_paths=20000)
+    table = {}       # (basis size, character class) -> level of the appended unit vector
+    bad_vec = []
+    for p in it.run(g):
+        if p.status != "return":
+            continue
+        apps = [e for e in p.events if e.kind == "call" and e.name == ".append" and e.pos]
+        if not apps:
+            continue
+        v = strip_typed(apps[-1].pos[0])
+        level = _unit_vector_level(v)
+        if level is None:
+            if v[0] == "ext":
+                continue  # a name unbound on this (infeasible) combination of basis size and character class
+            bad_vec.append(show(v)[:60])
+            continue
+        dim = level[0]
+        # which character class does this path handle: the decided comparisons of the loop character
+        cls = "other"
+        for c, t in p.cond_log:
+            c0 = strip_typed(c)
+            if c0[0] == "cmp" and c0[1] == "==" and strip_typed(c0[2])[0] == "elem" and c0[3][0] == "const" and t:
+                cls = c0[3][1]
+        if cls == "":
+            continue  # `ch == ""` can never hold for a character of a string (leak = "" in 2-level bases)
+        table.setdefault((dim, cls), set()).add(level[1])
+    want = {}
+    for (dim, cls), lv in table.items():
+        exp = {"r": 1, "1": 1, "x": 2}.get(cls, 0)
+        ok = lv == {exp}
+        ctx.ob("TABLES-mps", f"MPS amplitudes|dim{dim}|'{cls}'", g.loc(), ok,
+               f"character {cls!r} ↦ unit vector of level {exp} (dim {dim})" if ok else
+               f"in a {dim}-level basis the character class {cls!r} is mapped to level(s) {sorted(lv)}, expected {exp}")
+    ctx.require(not bad_vec, f"TABLES: appended site tensors are not literal unit vectors: {bad_vec[:2]}")
+    classes = {cls for (_, cls) in table}
+    ctx.ob("TABLES-mps", "MPS amplitudes|character classes", g.loc(), {"r", "1", "x", "other"} <= classes,
+           "amplitude strings: 'r'/'1' → level 1, 'x' → level 2, anything else → level 0" if {"r", "1", "x", "other"} <= classes
+           else f"character classes dispatched: {sorted(classes)} (expected r, 1, x and the default)")
     # MPS.make ground state
     m = prog.func("emu_mps.mps.MPS.make")
     gs = []
@@ -141,21 +147,34 @@ def sv_tables(ctx, mpo_dec: dict | None = None) -> None:
         ctx.ob("TABLES-sv", "sv = mps tables", prog.func("emu_mps.mpo.MPO._from_operator_repr").loc(), agree,
                "emu-sv and emu-mps use the same matrices for gg/gr/rg/rr" if agree else
                "emu-sv and emu-mps disagree on the matrices of the operator symbols")
-    # amplitude strings of StateVector: one -> '1', 'g' -> '0', most significant first
+    # amplitude strings of StateVector: 'r' -> '1', 'g' -> '0', int(..., 2): most significant first
+    from ..interp import Interp, show, strip_typed, walk
     s = prog.func("emu_sv.state_vector.StateVector._from_state_amplitudes")
-    txt = None
-    for n in ast.walk(s.node):
-        if isinstance(n, ast.Call) and dotted(n.func) == "int" and len(n.args) == 2:
-            txt = util.text(n)
-    ones = sorted({n.value.value for n in ast.walk(s.node) if isinstance(n, ast.Assign) and isinstance(n.targets[0], ast.Name)
-                   and n.targets[0].id == "one" and isinstance(n.value, ast.Constant)})
-    ok = txt is not None and txt.replace('"', "'") == "int(state.replace(one, '1').replace('g', '0'), 2)" and ones == ["r"]
+    its = Interp(prog, s.cls, inline=lambda c, r, d: False, loop_iters=(1,))
+    ok = oka = False
+    seen = None
+    for p in its.run(s):
+        if p.status != "return":
+            continue
+        for e in p.events:
+            if e.kind == "setitem" and ".data" in show(e.target[0]):
+                idx = strip_typed(e.target[1])
+                seen = show(idx)
+                if idx[0] == "call" and idx[1] == "int" and len(idx[2]) == 2 and idx[2][1] == ("const", 2):
+                    a0 = strip_typed(idx[2][0])
+                    # elem.replace('r','1').replace('g','0') in either order
+                    reps = []
+                    cur = a0
+                    while cur[0] == "mcall" and cur[2] == "replace" and len(cur[3]) == 2:
+                        reps.append((strip_typed(cur[3][0]), strip_typed(cur[3][1])))
+                        cur = strip_typed(cur[1])
+                    base_ok = cur[0] == "unpack" or cur[0] == "elem"
+                    ok = base_ok and sorted(reps) == sorted([(("const", "r"), ("const", "1")), (("const", "g"), ("const", "0"))])
+                v = strip_typed(e.value)
+                oka = v[0] in ("unpack", "elem") and "amplitudes" in show(v)
     ctx.ob("TABLES-sv", "StateVector amplitudes", s.loc(), ok,
            "amplitude string → basis index: 'r' ↦ bit 1, 'g' ↦ bit 0, first atom most significant" if ok else
-           f"the amplitude-string decoding changed: {txt}, one ∈ {ones}")
-    st = [n for n in ast.walk(s.node) if isinstance(n, ast.Assign) and isinstance(n.targets[0], ast.Subscript)
-          and "accum_state.data" in util.text(n.targets[0])]
-    oka = len(st) == 1 and util.text(st[0].value) == "amplitude" and "bin_to_int" in util.text(st[0].targets[0])
+           f"the amplitude-string decoding changed: data[{seen}]")
     ctx.ob("TABLES-sv", "StateVector amplitude store", s.loc(), oka,
            "each amplitude is stored at the index of its string" if oka else "amplitudes are not stored at data[index(string)]")
     # index_to_bitstring is the inverse convention (checked under C15 too)
@@ -163,3 +182,28 @@ def sv_tables(ctx, mpo_dec: dict | None = None) -> None:
     fmt = any(isinstance(n, ast.Call) and util.text(n.func) == "format" and util.text(n.args[0]) == "index" for n in ast.walk(u.node))
     ctx.ob("TABLES-sv", "index_to_bitstring", u.loc(), fmt, "index → zero-padded binary, MSB first" if fmt else
            "index_to_bitstring changed")
+
+
+def _unit_vector_level(t):
+    """(dim, level) if the term is torch.tensor([[[a], [b], ...]]) with a single 1, else None."""
+    from ..interp import strip_typed
+    t = strip_typed(t)
+    if t[0] == "call" and t[1] == "torch.tensor" and t[2]:
+        lit = _term_literal(t[2][0])
+        try:
+            col = [row[0] for row in lit[0]]
+        except Exception:
+            return None
+        if col.count(1.0) == 1 and all(x in (0.0, 1.0) for x in col):
+            return (len(col), col.index(1.0))
+    return None
+
+
+def _term_literal(t):
+    from ..interp import strip_typed
+    t = strip_typed(t)
+    if t[0] == "const":
+        return t[1]
+    if t[0] in ("list", "tuple"):
+        return [_term_literal(x) for x in t[1]]
+    raise ValueError("not a literal")
